@@ -12,6 +12,7 @@ with release time `t`; `owner = some j` ⇔ a `Connection` object held by exchan
 | `ResponseHandler.should_close`                      | `Conn.shouldCloseProp`    |
 | `ResponseHandler.close` (+ the `connection_lost` the transport then delivers) | `Conn.protoClose` |
 | `ResponseHandler.connection_lost`                   | `Conn.connectionLost`     |
+| transport closing, `connection_lost` pending (`is_closing()` true, `transport` still set) | `Conn.beginClose`, `lostPending`, `holdLost`, `transportSet` |
 | `ResponseHandler.set_exception` / `DataQueue.set_exception` | `Conn.setException` |
 | `ResponseHandler.data_received` (HTTP branch, `_tail` branch) | `Conn.dataReceived` |
 | calls of the parser on the streams it creates (`StreamReader.feed_data/feed_eof/set_exception`, eof callbacks) | `Conn.applyEv` |
@@ -120,6 +121,13 @@ structure Conn (P : Parser) where
   key : Key
   /-- `transport is not None and not transport.is_closing()` -/
   connected : Bool := true
+  /-- the transport has started closing (peer FIN seen, fatal error, `transport.close()`), so
+  `is_closing()` is true and `connected` is false, but `connection_lost` has not been delivered
+  yet: `self.transport` is still set -/
+  lostPending : Bool := false
+  /-- harness-controlled behaviour of this connection's transport: `connection_lost` after a
+  `transport.close()` is delivered only on request (TLS shutdown / write buffer draining) -/
+  holdLost : Bool := false
   parser : Option P.σ := none
   skip : Bool := false
   shouldClose : Bool := false
@@ -248,7 +256,8 @@ def lostExc (c : Conn P) (os : Bool) : Conn P :=
   if !c.qeof then c.setException (if os then .os else .disconnected) else c
 
 def lostEnd (c : Conn P) : Conn P :=
-  { c with shouldClose := true, parser := none, payload := none, cur := none, connected := false, pooled := none }
+  { c with shouldClose := true, parser := none, payload := none, cur := none, connected := false, pooled := none,
+           lostPending := false }
 
 def lostCore (c : Conn P) (os : Bool) : Conn P × Bool :=
   let r := lostFeed c
@@ -256,13 +265,21 @@ def lostCore (c : Conn P) (os : Bool) : Conn P × Bool :=
 
 /-- `ResponseHandler.close()` followed by the transport's `connection_lost(None)` -/
 def protoClose (c : Conn P) : Conn P :=
-  if !c.connected then { c with exc := none, pooled := none }
+  if !c.connected && !c.lostPending then { c with exc := none, pooled := none }
   else (lostCore { c with exc := none, payload := none, connected := false } false).1
 
 /-- `ResponseHandler.connection_lost(exc)` called by the transport (peer closed / reset);
 second component: the eof callback of the held response ran (connection given up) -/
 def connectionLost (c : Conn P) (os : Bool) : Conn P × Bool :=
-  if !c.connected then (c, false) else lostCore c os
+  if !c.connected && !c.lostPending then (c, false) else lostCore c os
+
+/-- the transport starts closing without `connection_lost` being delivered yet (peer FIN read:
+`eof_received()` returns a false value; or an error): `is_closing()` becomes true -/
+def beginClose (c : Conn P) : Conn P :=
+  if c.connected then { c with connected := false, lostPending := true } else c
+
+/-- `self.transport is not None` (what `BaseProtocol.connected` and a weakened `is_connected` look at) -/
+def transportSet (c : Conn P) : Bool := c.connected || c.lostPending
 
 def release (c : Conn P) (now : Nat) (forceClose explicit : Bool) : Conn P :=
   releaseCore protoClose c now forceClose explicit
@@ -299,7 +316,9 @@ def dataReceived (c : Conn P) (now : Nat) (forceClose : Bool) (data : Bytes) (ta
       if r.err then
         -- transport.close(); set_exception(HttpProcessingError); then connection_lost
         let c := c.setException .http
-        let c := if c.connected then (lostCore { c with connected := false } false).1 else c
+        let c := if c.connected then
+            (if c.holdLost then { c with connected := false, lostPending := true }
+             else (lostCore { c with connected := false } false).1) else c
         (c, released)
       else
         let c := { c with upgraded := r.upgraded }
